@@ -55,3 +55,52 @@ contract(C + "_add_decays_to_be_copied",
              ], "types": {"copied_decays": "list", "misses": "list"}},
          },
          modifies=[DECAYS], returns="none", properties=["C08"])
+
+
+# ---- CDecay: charge-conjugate tables (C03, C08) -----------------------------------------------------------------
+CD = "stmts(self._parsed_dec_file, 'cdecay')"
+contract(C + "_add_charge_conjugate_decays",
+         requires=PARSED + [
+             # each name is the subject of at most one CDecay statement (C03's quantifier, P-CD1)
+             f"forall(lambda a, b: implies(0 <= a < b < len({CD}), {CD}[a].children[0].value != {CD}[b].children[0].value))"],
+         ensures=[
+             f"same({DECAYS}, old({DECAYS}))", f"llen({DECAYS}) >= old(llen({DECAYS}))",
+             # the source tables are left untouched and in place (their contents are outside the frame)
+             f"forall(lambda j: implies(0 <= j < old(llen({DECAYS})), same(lget({DECAYS}, j), old(lget({DECAYS}, j)))))",
+             # every added table is a new object: a private deep copy of one of the existing tables
+             f"forall(lambda j: implies(old(llen({DECAYS})) <= j < llen({DECAYS}), isfresh(lget({DECAYS}, j)) and typ(lget({DECAYS}, j), 'obj:Tree')))",
+             f"forall(lambda j: implies(old(llen({DECAYS})) <= j < llen({DECAYS}), "
+             f"   exists(lambda k: 0 <= k < old(llen({DECAYS})) and copied_from(lget({DECAYS}, j), old(lget({DECAYS}, k))))))",
+             # no CDecay statement, nothing added
+             f"implies(len({CD}) == 0, llen({DECAYS}) == old(llen({DECAYS})))",
+         ],
+         loops={
+             "comp#0": {},
+             "loop#0": {"invariant": [
+                 "typ(mother_names_ccdecays, 'list')", "isfresh(mother_names_ccdecays)",
+                 # the names still to be removed are still there; names stay pairwise distinct
+                 "forall(lambda j: implies(_i <= j < len(duplicates), exists(lambda m: 0 <= m < llen(mother_names_ccdecays) and lget(mother_names_ccdecays, m) == lget(duplicates, j))))",
+                 "forall(lambda a, b: implies(0 <= a < b < llen(mother_names_ccdecays), lget(mother_names_ccdecays, a) != lget(mother_names_ccdecays, b)))",
+                 "forall(lambda a: implies(0 <= a < llen(mother_names_ccdecays), typ(lget(mother_names_ccdecays, a), 'str')))",
+             ], "types": {"mother_names_ccdecays": "list"}},
+             "loop#1": {"invariant": [
+                 "isfresh(trees_to_conjugate)", "isfresh(misses)", "not same(trees_to_conjugate, misses)",
+                 f"forall(lambda j: implies(0 <= j < llen(trees_to_conjugate), exists(lambda k: 0 <= k < llen({DECAYS}) and same(lget(trees_to_conjugate, j), lget({DECAYS}, k)))))",
+             ], "types": {"trees_to_conjugate": "list", "misses": "list"}},
+             "comp#5": {"invariant": [
+                 "isfresh(_acc)", "len(_acc) == _i",
+                 "forall(lambda j: implies(0 <= j < _i, isfresh(lget(_acc, j)) and typ(lget(_acc, j), 'obj:Tree') and copied_from(lget(_acc, j), _seq[j]) and reach_fresh(lget(_acc, j))))",
+                 "forall(lambda j: implies(0 <= j < _i, table_head(lget(_acc, j))))",
+                 "forall(lambda j: implies(0 <= j < _i, refnum(lget(_acc, j).children) >= _loop_alloc and refnum(lget(lget(_acc, j).children, 0).children) >= _loop_alloc))",
+             ], "types": {"_acc": "list"}},
+             "loop#2": {"invariant": [
+                 "typ(cdecays, 'list')", "llen(cdecays) == _n",
+                 "forall(lambda j: implies(0 <= j < llen(cdecays), same(lget(cdecays, j), _seq[j])))",
+                 "forall(lambda j: implies(0 <= j < llen(cdecays), isfresh(lget(cdecays, j)) and typ(lget(cdecays, j), 'obj:Tree') and reach_fresh(lget(cdecays, j))))",
+                 "forall(lambda j: implies(_i <= j < llen(cdecays), table_head(lget(cdecays, j))))",
+                 "typ(dict_cc_names, 'dict') and is_dict_str_str(dict_cc_names)",
+                 f"same({DECAYS}, old({DECAYS}))", f"llen({DECAYS}) == old(llen({DECAYS}))",
+                 f"forall(lambda j: implies(0 <= j < llen({DECAYS}), same(lget({DECAYS}, j), old(lget({DECAYS}, j)))))",
+             ], "modifies": ["dict_cc_names"], "modifies_fields": ["value", "charge_conj_defs"]},
+         },
+         modifies=[DECAYS], returns="none", properties=[])   # WIP
